@@ -66,6 +66,10 @@ Qed.
 (* the members an object is written with (plain encoder) *)
 Definition omem (o : pval) : list (ustring * jvalue) := match encode false o with JObj m => m | _ => [] end.
 
+(* reserved "class ids" standing for "the observables of a 2.x observed-data container are covered" *)
+Definition obs_tag (vv : ver) : ustring := match vv with V20 => u "<observables 2.0>" | V21 => u "<observables 2.1>" end.
+Definition is_obs_tag (c : ustring) : bool := ustr_eqb c (obs_tag V20) || ustr_eqb c (obs_tag V21).
+
 Section All.
   Variable vr : variant.
   Variable w : world.
@@ -84,7 +88,8 @@ Section All.
      that of an embedded object / a list of objects on the embedded class *)
   Fixpoint kind_proved (k : pkind) : bool :=
     match k with
-    | KObservable _ | KStixObject _ | KExtensions _ => false
+    | KObservable vv => P (obs_tag vv)
+    | KStixObject _ | KExtensions _ => false
     | KHashes names vv => hashes_kind_ok vr names vv && forallb (fun n => negb (ustr_eqb n cp_key) && negb (ustr_eqb n ext_key)) names
     | KList k' => kind_proved k'
     | KEmbedded cid | KListOf cid => P cid
@@ -92,12 +97,118 @@ Section All.
     end.
 
   (* the nested constructor on plain input: an object, free of reserved keywords, idempotent on its own output *)
-  Definition rc_idem : Prop :=
-    forall cid a i d o, P cid = true -> plain_dict d = true -> rc cid a i d = Ok o ->
-      encode false o = JObj (omem o) /\ reserved_kw (omem o) = Ok tt /\ rc cid a i (omem o) = Ok o /\
-      plain_dict (omem o) = true.
+  Definition refs_plain (refs : list (ustring * ustring)) : bool :=
+    forallb (fun kv => negb (ustr_eqb (fst kv) cp_key) && negb (ustr_eqb (fst kv) ext_key)) refs.
 
-  Hypothesis Hrc : rc_idem.
+  (* ... and the parser of one observable of a container: idempotent on its own output, type kept *)
+  Definition ro_idem_at (vv : ver) : Prop :=
+    forall refs a d p, refs <> [] -> refs_plain refs = true -> plain_dict d = true -> ro vv refs a d = Ok p ->
+      encode false p = JObj (omem p) /\ ro vv refs a (omem p) = Ok p /\ plain_dict (omem p) = true /\
+      alookup (u "type") (omem p) = alookup (u "type") d.
+
+  Definition rc_idem : Prop :=
+    (forall cid a i d o, P cid = true -> plain_dict d = true -> rc cid a i d = Ok o ->
+      encode false o = JObj (omem o) /\ reserved_kw (omem o) = Ok tt /\ rc cid a i (omem o) = Ok o /\
+      plain_dict (omem o) = true) /\
+    (forall vv, P (obs_tag vv) = true -> ro_idem_at vv).
+
+  Hypothesis Hrc0 : rc_idem.
+  Let Hrc := proj1 Hrc0.
+  Let Hro := proj2 Hrc0.
+
+  (* ---- the observable container ---- *)
+  Lemma obs_refs_keys : forall l refs, obs_refs l = Ok refs -> map fst refs = map fst l.
+  Proof.
+    induction l as [| [k x] r IH]; intros refs H; cbn [obs_refs] in H.
+    - inv_ok H. reflexivity.
+    - destruct x; try discriminate. destruct (alookup (u "type") m) as [[] |]; try discriminate.
+      unfold bind in H. destruct (obs_refs r) as [rest | |] eqn:Er; try discriminate. inv_ok H.
+      cbn [map fst]. rewrite (IH rest eq_refl). reflexivity.
+  Qed.
+
+  Lemma refs_plain_of : forall l refs, plain_dict l = true -> obs_refs l = Ok refs -> refs_plain refs = true.
+  Proof.
+    intros l refs Hp H. pose proof (obs_refs_keys l refs H) as Hk. unfold refs_plain. apply forallb_forall. intros [k t] Hin.
+    assert (Hk1 : In k (map fst l)) by (rewrite <- Hk; apply in_map_iff; exists (k, t); auto).
+    apply in_map_iff in Hk1. destruct Hk1 as [[k' x] [E Hin']]. cbn [fst] in E. subst k'.
+    unfold plain_dict in Hp. rewrite forallb_forall in Hp. specialize (Hp _ Hin'). unfold plain_member in Hp. cbn [fst snd] in *.
+    apply andb_true_iff in Hp. destruct Hp as [Hp _]. apply andb_true_iff in Hp. destruct Hp as [Hp _]. exact Hp.
+  Qed.
+
+  Lemma obs_loop_idem : forall vv refs a, ro_idem_at vv -> refs <> [] -> refs_plain refs = true ->
+    forall l acc hc res h, plain_dict l = true ->
+    obs_loop ro vv refs a l acc hc = Ok (PMap res, h) ->
+    exists new, res = acc ++ new /\ map fst new = map fst l /\
+      obs_loop ro vv refs a (enc_members false new) acc hc = Ok (PMap res, h) /\
+      (forall refs0, obs_refs l = Ok refs0 -> obs_refs (enc_members false new) = Ok refs0) /\
+      plain_dict (enc_members false new) = true.
+  Proof.
+    intros vv refs a Hroi Hne Hrp. induction l as [| [k x] r IH]; intros acc hc res h Hp H; cbn [obs_loop] in H.
+    - inversion H; subst. exists []. rewrite app_nil_r. repeat split; auto.
+    - destruct x as [| | | | | | o]; try discriminate. unfold bind in H.
+      cbn [plain_dict forallb] in Hp. apply andb_true_iff in Hp. destruct Hp as [Hm Hr].
+      assert (Hpo : plain_dict o = true).
+      { unfold plain_member in Hm. cbn [fst snd] in Hm. apply andb_true_iff in Hm. destruct Hm as [_ Hm]. rewrite plain_json_obj in Hm. exact Hm. }
+      destruct (ro vv refs a o) as [p | |] eqn:Ep; try discriminate.
+      destruct (Hroi refs a o p Hne Hrp Hpo Ep) as [E1 [E2 [E3 E4]]].
+      match type of H with (if ?g then _ else _) = _ => destruct g eqn:Eg; try discriminate end.
+      destruct (IH _ _ res h Hr H) as [new [Er [Ek [Hl [Hrf Hpl]]]]].
+      exists ((k, p) :: new). split; [rewrite Er, <- app_assoc; reflexivity |]. split; [cbn [map fst]; rewrite Ek; reflexivity |].
+      split; [| split].
+      + cbn [enc_members map fst snd obs_loop]. rewrite E1. unfold bind. rewrite E2, Eg. exact Hl.
+      + intros refs0 H0. cbn [obs_refs] in H0. destruct (alookup (u "type") o) as [[| | | | t | |] |] eqn:Et; try discriminate.
+        unfold bind in H0.
+        destruct (obs_refs r) as [rest | |] eqn:Eor; try discriminate. inv_ok H0.
+        cbn [enc_members map fst snd obs_refs]. rewrite E1, E4. unfold bind.
+        change (map (fun kv : ustring * pval => (fst kv, encode false (snd kv))) new) with (enc_members false new).
+        rewrite (Hrf rest eq_refl). reflexivity.
+      + cbn [enc_members map fst snd plain_dict forallb]. fold (enc_members false new). fold (plain_dict (enc_members false new)).
+        rewrite Hpl. rewrite andb_true_r. unfold plain_member in *. cbn [fst snd] in *.
+        apply andb_true_iff in Hm. destruct Hm as [Hm _]. apply andb_true_iff in Hm. destruct Hm as [Hm _].
+        rewrite Hm, E1. cbn [nullish negb andb]. rewrite plain_json_obj. exact E3.
+  Qed.
+
+  Lemma obs_loop_map : forall vv refs a l acc hc p h, obs_loop ro vv refs a l acc hc = Ok (p, h) -> exists res, p = PMap res.
+  Proof.
+    intros vv refs a. induction l as [| [k x] r IH]; intros acc hc p h H; cbn [obs_loop] in H.
+    - inv_ok H. eauto.
+    - destruct x; try discriminate. unfold bind in H. destruct (ro vv refs a m); try discriminate.
+      match type of H with (if ?g then _ else _) = _ => destruct g; try discriminate end. eapply IH; eauto.
+  Qed.
+
+  (* what cleaning an observable container amounts to *)
+  Lemma observable_unfold : forall vv a i jv pv hcv,
+    CK (KObservable vv) a i jv = Ok (pv, hcv) ->
+    exists d refs res, jv = JObj d /\ d <> [] /\ obs_refs d = Ok refs /\ pv = PMap res /\
+                       obs_loop ro vv refs a d [] false = Ok (PMap res, hcv).
+  Proof.
+    intros vv a i jv pv hcv H. cbn [clean_kind] in H. unfold bind in H.
+    destruct jv; cbn [get_dict] in H; try discriminate.
+    destruct m as [| kv m']; try discriminate.
+    destruct (obs_refs (kv :: m')) as [refs | |] eqn:Er; try discriminate.
+    destruct (obs_loop_map _ _ _ _ _ _ _ _ H) as [res Ep]. subst pv.
+    exists (kv :: m'), refs, res. repeat split; auto. discriminate.
+  Qed.
+
+  Lemma observable_idem : forall vv a i jv pv hcv, P (obs_tag vv) = true -> plain_json jv = true ->
+    CK (KObservable vv) a i jv = Ok (pv, hcv) ->
+    CK (KObservable vv) a i (encode false pv) = Ok (pv, hcv) /\ plain_json (encode false pv) = true /\
+    nullish (encode false pv) = false.
+  Proof.
+    intros vv a i jv pv hcv HP Hv H.
+    destruct (observable_unfold vv a i jv pv hcv H) as [d [refs [res [Ej [Hd [Er [Ep Hl]]]]]]]. subst jv pv.
+    rewrite plain_json_obj in Hv. fold (plain_dict d) in Hv.
+    assert (Hne : refs <> []).
+    { intros E. subst refs. apply obs_refs_keys in Er. destruct d; [contradiction | discriminate]. }
+    destruct (obs_loop_idem vv refs a (Hro vv HP) Hne (refs_plain_of d refs Hv Er) d [] false res hcv Hv Hl)
+      as [new [Eres [Ek [Hl' [Hrf Hpl]]]]].
+    cbn [app] in Eres. subst new. rewrite encode_map.
+    split; [| split; [rewrite plain_json_obj; exact Hpl | reflexivity]].
+    cbn [clean_kind get_dict bind].
+    destruct (enc_members false res) as [| kv0 m0] eqn:Ee.
+    - exfalso. unfold enc_members in Ee. destruct res; [| discriminate]. destruct d; [contradiction | discriminate].
+    - rewrite (Hrf refs Er). cbn [bind]. exact Hl'.
+  Qed.
 
   Lemma clean_items_idem : forall (f : jvalue -> result (pval * bool)) l res h,
     (forall x p hc, In x l -> f x = Ok (p, hc) -> f (encode false p) = Ok (p, hc)) ->
@@ -177,6 +288,7 @@ Section All.
       rewrite E1. unfold bind. rewrite E2, E3, Eh. reflexivity.
     - eapply idem_KEnum; eauto.
     - eapply idem_KOpenVocab; eauto.
+    - (* KObservable *) exact (proj1 (observable_idem v allow interop jv pv hcv Hk Hv H)).
     - (* KList *)
       cbn [clean_kind] in *. unfold bind in H.
       destruct (list_items jv) as [l | |] eqn:El; try discriminate.
@@ -220,6 +332,8 @@ Section All.
       destruct (rc cls allow false m) as [o | |] eqn:Eo; try discriminate.
       rewrite plain_json_obj in Hv. destruct (Hrc cls allow false m o Hk Hv Eo) as [E1 _].
       destruct (negb allow && pval_has_custom o); try discriminate. inv_ok H. rewrite E1. reflexivity.
+    - (* observable container *)
+      match goal with Hk0 : P (obs_tag ?vv) = true |- _ => exact (proj2 (proj2 (observable_idem vv allow interop v p hc Hk0 Hv H))) end.
     - (* list *)
       unfold bind in H. destruct (list_items v); try discriminate.
       destruct (clean_items (CK k allow interop) a) as [[res h] | |]; try discriminate.
@@ -308,6 +422,8 @@ Section All.
       destruct (rc cls allow false m) as [o | |] eqn:Eo; try discriminate.
       rewrite plain_json_obj in Hv. destruct (Hrc cls allow false m o Hk Hv Eo) as [E1 [_ [_ E4]]].
       destruct (negb allow && pval_has_custom o); try discriminate. inv_ok H. rewrite E1. rewrite plain_json_obj. exact E4.
+    - (* observable container *)
+      match goal with Hk0 : P (obs_tag ?vv) = true |- _ => exact (proj1 (proj2 (observable_idem vv allow interop jv pv hcv Hk0 Hv H))) end.
     - (* list *)
       unfold bind in H. destruct (list_items jv) as [l | |] eqn:El; try discriminate.
       destruct (clean_items (CK k allow interop) l) as [[res h] | |] eqn:Ec; try discriminate.
